@@ -77,6 +77,9 @@ def classify(seg):
         elif e.get("how") == "flip" and e.get("where") in ("type", "typetag"):
             # the record type is outside the CRC: a flipped type byte re-types an intact record
             sig["class"] = "record-type-unprotected"
+        elif e.get("snapon") and e.get("picked") not in ({"i": -1, "t": -1},) and not any(
+                f["ok"] and f["i"] == e["picked"]["i"] and f["t"] == e["picked"]["t"] and f["x"] == e.get("pdata") for f in e.get("files", [])):
+            sig["class"] = "snapshot-pick"
         elif res.get("err"):
             sig["class"] = "repairable-image-refused"
         elif e.get("res2") != res:
@@ -111,10 +114,10 @@ def drive(ctx, zr, name, args, parts, stats, samples, timeout=2400):
             ctx.skipped += 1
             continue
         for k in ("histories", "sim_histories", "calls", "cuts", "restarts", "images", "repaired", "big_entries",
-                  "segments_purged", "releases", "syncs", "concurrent_batches", "second_lives"):
+                  "segments_purged", "releases", "syncs", "concurrent_batches", "second_lives", "snapshot_dir_images"):
             stats[k] = stats.get(k, 0) + summ.get(k, 0)
         stats["max_entry_bytes"] = max(stats.get("max_entry_bytes", 0), summ.get("max_entry_bytes", 0))
-        for k in ("by_kind", "by_tail", "by_outcome"):
+        for k in ("by_kind", "by_tail", "by_outcome", "by_snapshot_damage"):
             for kk, v in summ.get(k, {}).items():
                 stats[k][kk] = stats[k].get(kk, 0) + v
         if os.path.getsize(out) > 0:
@@ -215,7 +218,7 @@ def run(ctx):
         models[cfg] = V.tlc(ctx, "MC_ZWal", cfg, workers=workers, timeout=timeout, tag="mc-" + cfg[:-4])
     plan = [("MC_ZWal_crash.cfg", 4, 200), ("MC_ZWal.cfg", 6, 240)] if q else \
            [("MC_ZWal_crash.cfg", 4, 900), ("MC_ZWal.cfg", 4, 1200), ("MC_ZWal_mid.cfg", 6, 1800),
-            ("MC_ZWal_purge.cfg", 6, 1800)]
+            ("MC_ZWal_purge.cfg", 6, 1800), ("MC_ZWal_snap.cfg", 4, 1200)]
     threads = [threading.Thread(target=model, args=a) for a in plan]
     for t in threads:
         t.start()
@@ -230,7 +233,8 @@ def run(ctx):
         ctx.notes.append("tlc -simulate wrote no behaviours: %s" % (rs.error or rs.out[-200:]))
         ctx.skipped += 1
 
-    stats = dict(events=0, segments=0, images_validated=0, mismatches=0, by_kind={}, by_tail={}, by_outcome={})
+    stats = dict(events=0, segments=0, images_validated=0, mismatches=0, by_kind={}, by_tail={}, by_outcome={},
+                 by_snapshot_damage={})
     samples = []
     parts = 8
     if q:
@@ -258,6 +262,14 @@ def run(ctx):
     # the write position may resurface)
     drive(ctx, zr, "bigbatch", ["-seed", seed, "-random", "4" if q else "24", "-bigbatch", "-lifeall", "-maximg", "24"],
           4 if q else 8, stats, samples)
+    # the snapshotter next to the log: a real snap.Snapshotter directory (file first, marker second),
+    # damaged in the images (newest file torn / empty / flipped / gone, a file whose marker never reached
+    # the log); the restart's own choice LoadNewestAvailable(ValidSnapshotEntries) is judged by ZWalTrace
+    # (PickSnap) and the log is opened at it
+    drive(ctx, zr, "snapfiles", ["-seed", seed, "-random", "4" if q else "32", "-len", "14", "-snapfiles", "-maximg", "6" if q else "10"],
+          3 if q else 8, stats, samples)
+    drive(ctx, zr, "snapfiles-purge", ["-seed", seed, "-random", "4" if q else "32", "-purge", "-snapfiles", "-maximg", "4" if q else "8"],
+          3 if q else 8, stats, samples)
     # two goroutines on one WAL (raft loop: Save; snapshot goroutine: SaveSnapshot + ReleaseLockTo);
     # the calls are logged in the order the WAL's mutex serialized them, read off the record order
     drive(ctx, zr, "concurrent", ["-seed", seed, "-conc", "12" if q else "120", "-maximg", "6"], 2 if q else 6, stats, samples)
@@ -328,6 +340,7 @@ def run(ctx):
         model_runs=runs,
         histories=stats.get("histories", 0), tlc_generated_histories=stats.get("sim_histories", 0),
         calls=stats.get("calls", 0), segment_rolls=stats.get("cuts", 0), clean_restarts=stats.get("restarts", 0),
+        snapshot_dir_images=stats.get("snapshot_dir_images", 0), snapshot_dir_damage=stats.get("by_snapshot_damage", {}),
         second_lives=stats.get("second_lives", 0), concurrent_batches=stats.get("concurrent_batches", 0), lock_releases=stats.get("releases", 0), wal_syncs=stats.get("syncs", 0), segments_purged=stats.get("segments_purged", 0),
         entries_over_1MB=stats.get("big_entries", 0), largest_entry_bytes=stats.get("max_entry_bytes", 0),
         events_validated=stats["events"], mismatching_lines=stats["mismatches"],
